@@ -65,6 +65,9 @@ func (m *vMonitor) flush() {
 }
 
 func (m *vMonitor) before(x *vRun, o vOp) {
+	if m.crashOnly {
+		return // wild mode: replies may arrive on the executor goroutine; nothing but crashes is judged
+	}
 	m.cur = o
 	if o.kind == 'L' || o.kind == 'U' {
 		m.reqs[o.req] = &vReqInfo{op: o, t0: x.v.db.currentTime}
@@ -97,6 +100,9 @@ func vAdmissible(ks vKeySnap, count int) bool {
 
 // onReply runs inside the result callback, i.e. at the moment the real code emits the reply.
 func (m *vMonitor) onReply(r vReply) {
+	if m.crashOnly {
+		return // wild mode: replies may arrive on the executor goroutine; nothing but crashes is judged
+	}
 	x := m.x
 	ri := m.reqs[r.req]
 	now := x.v.db.currentTime
@@ -328,6 +334,9 @@ const (
 
 // after runs at a quiescent moment (the operation and every wake pass it triggered are complete).
 func (m *vMonitor) after(x *vRun, o vOp, ob string) {
+	if m.crashOnly {
+		return // wild mode: replies may arrive on the executor goroutine; nothing but crashes is judged
+	}
 	now := x.v.db.currentTime
 	// ---- C02: a refused unlock changes nothing
 	if o.kind == 'U' {
@@ -549,6 +558,9 @@ func (m *vMonitor) after(x *vRun, o vOp, ob string) {
 
 // drained: every hold released, every waiter answered.
 func (m *vMonitor) drained(x *vRun) {
+	if m.crashOnly {
+		return // wild mode: replies may arrive on the executor goroutine; nothing but crashes is judged
+	}
 	for rq, ri := range m.reqs {
 		if len(ri.terminal) != 1 {
 			m.report("C03:terminal-reply-count", fmt.Sprintf("request %d (%s) has %d terminal replies after the drain: %v", rq, ri.op.String(), len(ri.terminal), ri.terminal))
